@@ -552,7 +552,11 @@ let parse_apiop (s : string) : apiop =
   if s = "open" then AOpen else if s = "addempty" then AAddEmpty else if s = "addbad" then AAddBad
   else if s = "compactall" then ACompactAll else if s = "expire" then AExpire else if s = "close" then AClose
   else if s = "read" then ARead else if s = "clean" then AClean
-  else if S.length s > 8 && S.sub s 0 8 = "compact(" then ACompactAll
+  else if S.length s > 8 && S.sub s 0 8 = "compact(" then
+    (let inner = S.sub s 8 (S.length s - 9) in
+     match S.split_on_char ',' inner with
+     | [a; b] -> ACompact (nat_of_int (int_of_string a), nat_of_int (int_of_string b))
+     | _ -> failwith "bad compact args")
   else if S.length s > 8 && S.sub s 0 8 = "addmulti" then (let (t, a) = arg2 "addmulti" in AAddMulti (t, a))
   else if S.length s > 3 && S.sub s 0 3 = "add" then (let (t, a) = arg2 "add" in AAdd (t, a))
   else failwith ("bad api op " ^ s)
@@ -619,7 +623,7 @@ let show_fres = function FOk -> "ok" | FExist -> "EEXIST" | FNoEnt -> "ENOENT" |
 let show_apiop = function
   | AOpen -> "open" | AAdd (t, a) -> Printf.sprintf "add(%d,%d)" (int_of_nat t) (if a then 1 else 0)
   | AAddMulti (t, a) -> Printf.sprintf "addmulti(%d,%d)" (int_of_nat t) (if a then 1 else 0)
-  | AAddEmpty -> "addempty" | AAddBad -> "addbad" | ACompactAll -> "compactall" | AExpire -> "expire"
+  | AAddEmpty -> "addempty" | AAddBad -> "addbad" | ACompactAll -> "compactall" | ACompact (a, b) -> Printf.sprintf "compact(%d,%d)" (int_of_nat a) (int_of_nat b) | AExpire -> "expire"
   | AClose -> "close" | ARead -> "read" | AClean -> "clean"
 let show_apires = function
   | ROk -> "ok" | RLockFailure -> "lockfailure" | RRejected -> "rejected" | RErr -> "err" | RNoStack -> "nostack"
@@ -687,9 +691,7 @@ let model_stack_trace (args0 : string) (impl_evs : event list) : string option =
       if Buffer.length buf > 0 then out := Buffer.contents buf :: !out;
       L.rev !out in
     let scripts = L.map (fun sc -> L.map parse_apiop (split_ops sc)) (S.split_on_char ';' scripts) in
-    let modelled = L.for_all (L.for_all (function AAddMulti _ | AClean -> false | _ -> true)) scripts
-                   && not (L.exists (fun sc -> L.exists (fun o -> S.length o > 8 && S.sub o 0 8 = "compact(") (split_ops sc)) (S.split_on_char ';' scripts_s)) in
-    if not modelled then None else
+    ignore scripts_s;
     Some (S.concat " " (
       (* initial tables and the size oracle come from the implementation's snapshots *)
       let sizes : (int, coq_N) Hashtbl.t = Hashtbl.create 16 in
@@ -701,7 +703,7 @@ let model_stack_trace (args0 : string) (impl_evs : event list) : string option =
           | TBad -> None) init.sn_tabs in
       let sched = L.filter_map (function
           | ECall (h, _) -> Some (StackProto.Step (h, None))
-          | EFs (h, FRemove, PT n, _, _) -> Some (StackProto.Step (h, Some n))
+          | EFs (h, (FRemove | FOpen), PT n, _, _) -> Some (StackProto.Step (h, Some n))
           | EFs (h, _, _, _, _) -> Some (StackProto.Step (h, None))
           | ECrash h -> Some (StackProto.Crash h)
           | _ -> None) impl_evs in
